@@ -72,7 +72,7 @@ def generate(check, rng, tier, run_index):
             o['key'] = _gen_key(rng)
         elif k == 'join':
             o['j'] = rng.below(1 << 10)
-            o['how'] = rng.choice(['plus', 'method', 'mdjoin', 'mdjoin3', 'discard', 'discard_overlap'])
+            o['how'] = rng.choice(['plus', 'method', 'mdjoin', 'mdjoin3', 'discard', 'discard_overlap', 'unchecked', 'mdjoin_unchecked'])
             o['j2'] = rng.below(1 << 10)
         elif k == 'stack':
             o['j'] = rng.below(1 << 10)
@@ -81,6 +81,7 @@ def generate(check, rng, tier, run_index):
             o['inplace'] = rng.chance(0.4)
         elif k == 'remove_solvent':
             o['inplace'] = rng.chance(0.4)
+            o['exclude'] = rng.weighted([(None, 5), ('HOH', 3), ('NA', 2)])      # exclude=[name]: that solvent is kept
         elif k == 'center':
             o['mw'] = rng.chance(0.3)
         elif k == 'superpose':
@@ -122,6 +123,7 @@ def generate(check, rng, tier, run_index):
             o['few_atoms'] = rng.weighted([(0, 6), (1, 1), (2, 2), (3, 1)])     # boundary sizes: save only the first 1-3 atoms
             o['all_frames'] = rng.chance(0.5)        # restart formats: save every frame (numbered files) instead of the first only
             o['dialect'] = rng.chance(0.4)           # dcd / trr / gro: the saved file is rewritten into the dialect another program writes
+            o['save_kw'] = rng.below(8)              # format-specific keywords of the saver (pdb: header / ter / bfactors; gro: precision)
         ops.append(o)
     return {'check': check, 'n_res': n_res, 'n_wat': n_wat, 'members': members, 'ops': ops}
 
@@ -241,6 +243,15 @@ def lengths_angles_of(V):
     la, lb, lc = (np.linalg.norm(x, axis=1) for x in (a, b, c))
     ang = lambda u, v, lu, lv: np.degrees(np.arccos(np.clip(np.einsum('ij,ij->i', u, v) / (lu * lv), -1, 1)))
     return np.stack([la, lb, lc], 1), np.stack([ang(b, c, lb, lc), ang(c, a, lc, la), ang(a, b, la, lb)], 1)
+
+
+def _rst7_two_atom_cell_line_is_recognisable(msrc):
+    """the documented rule of the ASCII restart reader for one- and two-atom files: the 4th line is a cell iff one of its six
+    numbers, as printed with seven decimals (lengths in Angstrom, angles in degrees), is >= 60"""
+    if msrc.L is None or msrc.A is None:
+        return False
+    vals = [float('%12.7f' % v) for v in list(np.asarray(msrc.L[0], dtype=np.float64) * 10.0) + list(np.asarray(msrc.A[0], dtype=np.float64))]
+    return max(vals) >= 60.0 + 1e-6 or any(abs(v - 60.0) < 5e-8 for v in vals)
 
 
 def _as_form(v, form, res):
@@ -663,6 +674,10 @@ def execute(check, case, workdir):
                     r = t.join(u.t)
                 elif how in ('discard', 'discard_overlap'):
                     r = t.join([p.t for p in parts[1:]], discard_overlapping_frames=True)
+                elif how == 'unchecked':
+                    r = t.join(u.t, check_topology=False)           # the caller vouches for equal topologies: same result, no comparison
+                elif how == 'mdjoin_unchecked':
+                    r = md.join([p.t for p in parts], check_topology=False)
                 else:
                     r = md.join([p.t for p in parts])
                 keep = [np.arange(p.n) for p in parts]
@@ -718,7 +733,8 @@ def execute(check, case, workdir):
                     if len(idx) == 0:
                         idx = np.array([0])
                 else:
-                    idx = np.array([a for a in range(na) if m.labels[a][2] != 'HOH'], dtype=int)
+                    keep_water = op.get('exclude') == 'HOH'
+                    idx = np.array([a for a in range(na) if keep_water or m.labels[a][2] != 'HOH'], dtype=int)
                     if len(idx) == 0:
                         continue
                 inplace = op['inplace']
@@ -727,7 +743,8 @@ def execute(check, case, workdir):
                 if kind == 'atom_slice':
                     r = t.atom_slice(idx, inplace=inplace)
                 else:
-                    r = t.remove_solvent(inplace=inplace)
+                    r = t.remove_solvent(inplace=inplace) if not op.get('exclude') else t.remove_solvent(exclude=[op['exclude']], inplace=inplace)
+                    flags += ',exclude=%s' % op.get('exclude')
                 if cs_before == 'set' and inplace:
                     res.probe('cache_present_at_inplace_atom_slice')
                 labels = [m.labels[a] for a in idx]
@@ -1040,15 +1057,29 @@ def execute(check, case, workdir):
                 if op.get('few_atoms') and msrc.xyz.shape[1] > op['few_atoms'] and fmt not in ('pdb', 'gro', 'mdcrd'):
                     ts = ts.atom_slice(list(range(op['few_atoms'])))
                     res.probe('save_load_with_%d_atoms' % op['few_atoms'])
-                if fmt == 'rst7' and ts.n_atoms == 2:
+                if fmt == 'rst7' and ts.n_atoms == 2 and not _rst7_two_atom_cell_line_is_recognisable(msrc):
                     # a two-atom ASCII restart file is ambiguous by format: its 4th line is a cell or velocities, and the reader
                     # (documented in amberrst.py) takes it for a cell only if some number is >= 60 -- a 60-degree cell that went
                     # through float32 (59.99999) is legitimately read as velocities.  Same family as the one-atom mdcrd frame.
+                    # Where the documented rule does say "cell" (a printed value of 60.0000000 or more) the file is judged as usual.
                     fmt = 'ncrst'
                     p = os.path.join(workdir, 'c%d.%s' % (stepno, fmt))
                     flags = flags.replace('fmt=rst7', 'fmt=ncrst')
+                skw = {}
+                if fmt == 'pdb':
+                    skw = [{}, {}, {}, {'header': False}, {'ter': False}, {'bfactors': np.zeros(ts.n_atoms)}, {'header': False, 'ter': False},
+                           {'header': False}][op.get('save_kw', 0) % 8]
+                    if skw.get('header') is False and ts.n_frames > 1:
+                        # without MODEL/ENDMDL records a file holds one frame
+                        ts = ts[0]
+                        msrc = Member(ts, msrc.xyz[:1], msrc.time[:1], None if msrc.L is None else msrc.L[:1], None if msrc.A is None else msrc.A[:1], msrc.labels)
+                elif fmt == 'gro':
+                    skw = [{}, {}, {'precision': 4}, {'precision': 6}][op.get('save_kw', 0) % 4]
+                if skw:
+                    res.probe('save_with_format_keywords:' + fmt)
+                    flags += ',' + '+'.join(sorted(skw))
                 try:
-                    ts.save(p)
+                    ts.save(p, **skw)
                 except Exception as e:
                     ok = False
                     res.log.append('%d save_load(%s) m%d save raised %s' % (stepno, fmt, m.id, type(e).__name__))
@@ -1061,7 +1092,8 @@ def execute(check, case, workdir):
                         if fmt == 'dcd':
                             foreign.dcd_swap_endianness(p)
                         elif fmt == 'trr':
-                            foreign.trr_rewrite(p, True, stepno % 2 == 0, stepno % 3 == 0, stepno)
+                            foreign.trr_rewrite(p, stepno % 5 != 0, stepno % 2 == 0, stepno % 3 == 0, stepno,
+                                                with_vir=stepno % 4 < 2, with_pres=stepno % 4 in (1, 3))
                         elif fmt == 'nc':
                             # AMBER's own layout, or coordinates and cell lengths stored packed (CF scale_factor)
                             if stepno % 2:
